@@ -610,6 +610,19 @@ def run_c10(tier, seed, replay=None):
         cases.append(mk_case([], ["q", "r", "t"][:len(vs)], prefix + [["cond", ["conj"] + A, ["conj"] + B]], parts=(k + 1, k + 2), mode="bag"))
         cases.append(mk_case([], ["q", "r", "t"][:len(vs)], prefix + A, mode="bag"))
         cases.append(mk_case([], ["q", "r", "t"][:len(vs)], prefix + B, mode="bag"))
+    # depth-first: a disjunction whose branches are themselves disjunctions of goals that answer at once (bare == clauses), so
+    # mature streams of several answers meet in mplus_dfs: the union, in both orders
+    for _ in range(n // 4):
+        va = rnd.sample(range(1, 9), rnd.randint(2, 4))
+        vb = rnd.sample(range(10, 19), rnd.randint(1, 3))
+        A = [["cond"] + [["eq", "q", v] for v in va]]
+        B = [["cond"] + [["eq", "q", v] for v in vb]] if rnd.random() < 0.7 else [["eq", "q", vb[0]]]
+        first, second = (A, B) if rnd.random() < 0.6 else (B, A)
+        k = len(cases)
+        outer = ["cond", first[0], second[0]] if rnd.random() < 0.7 else ["cond", ["conj"] + first, ["conj"] + second]
+        cases.append(mk_case([], ["q"], [["dfs", outer]], parts=(k + 1, k + 2), mode="bag"))
+        cases.append(mk_case([], ["q"], [["dfs"] + first], mode="bag"))
+        cases.append(mk_case([], ["q"], [["dfs"] + second], mode="bag"))
     # CLP(Z) in the branches: a constraint that solves one of its operands at once (two operands bound in the shared prefix)
     # writes a binding - it must stay in its branch, whichever branch is listed first
     for _ in range(n // 3):
